@@ -17,14 +17,16 @@ import hv
 from hv import Case
 
 SPEC = {
-    "lean_modules": ["Honeycomb.Props.C16", "Honeycomb.Props.C16Cross", "Honeycomb.Props.C16Clip", "Honeycomb.Props.C16Insert"],
+    "lean_modules": ["Honeycomb.Props.C16", "Honeycomb.Props.C16Cross", "Honeycomb.Props.C16Clip", "Honeycomb.Props.C16Insert", "Honeycomb.Props.C16Grid"],
     "required_theorems": ["C16_orientation_rejection_iff", "C16_orientation_accepts_iff_nodup", "C16_closed_loop_accepted",
                           "C16_repeated_origin_rejected", "C16_repeated_endpoint_rejected", "C16_grid_margins", "C16_grid_tight",
                           "C16_crossings_sound", "C16_crossings_on_grid_lines", "C16_crossings_complete", "C16_crossings_sorted", "C16_crossings_count", "C16_metadata_order", "C16_metadata_same_intersections", "C16_metadata_spec",
                           "C16_markFaces_spec", "C16_markFaces_err", "C16_markFaces_total", "C16_markFaces_err_iff",
                           "C16_slots_genpos", "C16_hits_slot_numbers", "C16_group_sorted", "C16_intersection_ids_spec",
                           "C16_intersection_ids_distinct", "C16_intersection_darts_spec", "C16_intersection_darts_distinct",
-                          "C16_unwritten_slot_null", "C16_insert_edge_spec", "C16_deleteDarts_spec", "C16_deleteDarts_order_independent",
+                          "C16_unwritten_slot_null", "C16_insert_edge_spec",
+                          "C16_shift_lt_half", "C16_on_line_for_one_shift", "C16_shift_loop_terminates", "C16_shift_loop_exit",
+                          "C16_no_vertex_on_grid_corner", "C17_no_vertex_on_grid_line", "C16_deleteDarts_spec", "C16_deleteDarts_order_independent",
                           "C16_clip_spec", "C16_clip_WF", "C16_clip_order_independent", "C16_clipLeft_spec", "C16_clipRight_spec",
                           "C16_between_crossings_one_cell"],
     "trusted_base": [
@@ -59,6 +61,9 @@ SPEC = {
         "with <= 3 darts (+ sampled 4-dart maps) x random tags, and the real pre-clip maps rebuilt from `grisubal none` with "
         "recomputed tags (also checked: clipping them gives the mesh `grisubal left|right` returns); full `snap` + `wf` compared, "
         "coordinates at live vertex identifiers only (stale slots depend on the HashSet order)",
+        "hand-written model `overlappingGrid` (compute_overlapping_grid with the origin-shift loop, detect_overlaps) tied through the "
+        "public API: `ogridg grisubal` = grisubal with Clip::None then the bounding box of the returned map, identical text with the "
+        "model and with the independent Python evaluation shifted_grid",
         "Rust harness /verif/harness/hcimpl/src/gris.rs (writes the geometry as a legacy ASCII VTK file, calls the public "
         "grisubal) and tools/grisgeo.py + tools/props/c16.py (the exact oracle: independent crossings, areas, sides, coverage)",
         "vtkio's legacy reader (the geometry reaches the kernel through a file)",
@@ -88,7 +93,8 @@ SPEC = {
             "exact + 500 general + 400 corner segments; + clip tie (hook): tagged grids, all maps <= 3 darts, rebuilt real pre-clip maps; "
             "+ steps 2-3 tie (`gids`, hook): 800 slot vectors; + outside general position, correspondence only: 80 polygons with an edge "
             "through a grid corner and 80 with a vertex on a grid line: gcrossd on every segment, gids on the real slot vector. "
-            "thorough: x8. "
+            "+ origin-shift loop: 40 polygons with vertices on corners of the successive grids (1..4 shifts): `ogridg` tie, and "
+            "the end-to-end oracle on those in general position w.r.t. the final grid. thorough: x8. "
             "distinct_nontrivial = distinct implementation transcripts.",
     "observations": [
         "OBSERVATION outside the property (not a finding: C16 is stated for boundaries in general position with respect to the grid): "
@@ -111,8 +117,10 @@ SPEC = {
         "and every retained point of interest is a vertex, faces tile the grid rectangle, exactly one side kept, kept area = "
         "region area, every segment covered by free boundary edges): validated by the exact oracle on the real "
         "implementation, not proved",
-        "compute_overlapping_grid: detection of vertices on grid lines and termination of the shift loop (the sizing "
-        "formulas are proved for any shift < 1/2 cell: C16_grid_margins); step 1 (generate_intersection_data) is modelled and "
+        "compute_overlapping_grid is modelled with its origin-shift loop and detect_overlaps (`overlappingGrid`), tied through "
+        "`ogridg`, and proved over exact rationals (Props/C16Grid.lean: the loop ends within 2|V| shifts, cumulated shift < 1/2 so "
+        "C16_grid_margins / C16_grid_tight apply, after it no vertex on a grid corner (grisubal) / grid line (capture)); NOT proved: "
+        "f64 (the `%` test is exact, the subtraction before it is not in general), the i32 overflow of 2^(i+1) beyond 30 shifts; step 1 (generate_intersection_data) is modelled and "
         "proved for one segment over exact rationals under eps-general position (C16_crossings_*: sound, complete, sorted, count = "
         "number of pre-allocated slots = C16_slots_genpos: no slot stays (0, NaN), one cell between consecutive crossings); NOT proved: "
         "that f64 rounding preserves these (the tie is exact only on the exact family); segments through grid corners "
@@ -787,6 +795,111 @@ def step1_tie(rng, count, exact, corner=False):
     return {"stats": stats, "violations": violations, "samples": [{"case": "step1", "input": [segs[0][0]], "impl_output": res[0][1][1:2]}] if segs else [], "notes": notes}
 
 
+# ---- the origin-shift loop of compute_overlapping_grid (vertices on grid lines / corners of the first grid) -----------------
+
+def shifted_grid(g, keep_all_poi):
+    """independent evaluation of compute_overlapping_grid: (ox, oy, nx, ny, number of shifts).  grisubal
+    (keep_all_poi = False) shifts while a vertex lies on a grid CORNER or a boundary vertex on a grid line has both
+    neighbours in one cell; capture_geometry (True) while a vertex lies on any grid LINE (or such a reflection)."""
+    import math
+    cx, cy = g.cell
+    xs, ys = [p[0] for p in g.verts], [p[1] for p in g.verts]
+    nxt = {a: b for a, b in g.segs}
+    prv = {b: a for a, b in g.segs}
+    for k in range(64):
+        sh = Fr(1, 2) - Fr(1, 2 ** (k + 1))
+        ox, oy = min(xs) - cx * Fr(3, 2) + cx * sh, min(ys) - cy * Fr(3, 2) + cy * sh
+        on = [(((x - ox) / cx).denominator == 1, ((y - oy) / cy).denominator == 1) for x, y in g.verts]
+        cell = lambda p: (math.floor((p[0] - ox) / cx), math.floor((p[1] - oy) / cy))
+        on_grid = any((a or b) if keep_all_poi else (a and b) for a, b in on)
+        reflect = any((a or b) and i in nxt and i in prv and cell(g.verts[prv[i]]) == cell(g.verts[nxt[i]]) for i, (a, b) in enumerate(on))
+        if not (on_grid or reflect):
+            return ox, oy, math.ceil((max(xs) - ox) / cx) + 1, math.ceil((max(ys) - oy) / cy) + 1, k
+    return None
+
+
+def shift_geometry(rng, keep_all_poi, depth):
+    """simple polygon on the lattice cell/16 with `depth` vertices moved onto the grid lines of the successive origins:
+    the j-th one sits (integer + 1/2, 3/4, 7/8, 15/16) cells from the bounding-box minimum — on one axis (a grid line:
+    capture_geometry shifts) or, for grisubal, on both (a grid corner); returns the geometry with its grid fixed to the
+    independent evaluation of the loop, which must have run at least once"""
+    import math
+    F = [Fr(1, 2), Fr(3, 4), Fr(7, 8), Fr(15, 16)]
+    for _ in range(300):
+        cx, cy = rng.choice([(Fr(1), Fr(1)), (Fr(1, 2), Fr(1, 2)), (Fr(2), Fr(2)), (Fr(1), Fr(1, 2))])
+        den = int(16 / min(cx, cy))
+        sc = float(max(cx, cy))
+        lp = gg.star_polygon(rng, (rng.uniform(-2, 2), rng.uniform(-2, 2)), 1.0 * sc, 2.8 * sc, rng.randint(4, 8), den, convex=rng.random() < 0.4)
+        if not lp:
+            continue
+        lp = [list(p) for p in lp]
+        mn = (min(p[0] for p in lp), min(p[1] for p in lp))
+        idx = rng.sample(range(len(lp)), min(depth, len(lp)))
+        for j, i in enumerate(idx):
+            axes = (0, 1) if not keep_all_poi else (rng.choice([(0,), (1,), (0,), (1,), (0, 1)]))
+            for ax in axes:
+                c = (cx, cy)[ax]
+                lp[i][ax] = mn[ax] + c * (math.floor((lp[i][ax] - mn[ax]) / c) + F[j])
+        lp = [tuple(p) for p in lp]
+        if len(set(lp)) != len(lp) or not gg.loops_simple([lp]) or gg.area2(lp) == 0:
+            continue
+        if gg.area2(lp) < 0:
+            lp = lp[::-1]
+        rev = rng.random() < 0.3
+        if rev:
+            lp = lp[::-1]
+        poi_mode = rng.choice(["all", "all", "some", "none"])
+        g = gg.Geometry([lp], gg.choose_poi(rng, [lp], poi_mode), (cx, cy), "shift")
+        g.interior_left, g.poi_mode = not rev, poi_mode
+        sg = shifted_grid(g, keep_all_poi)
+        if sg is None or sg[4] == 0:
+            continue
+        g.fixed_grid, g.shifts = sg[:4], sg[4]
+        return g
+    return None
+
+
+def shift_geometries(rng, count, keep_all_poi):
+    res = []
+    k = 0
+    while len(res) < count and k < 20 * count:
+        k += 1
+        g = shift_geometry(rng, keep_all_poi, 1 + k % 4)
+        if g is not None:
+            res.append(g)
+    return res
+
+
+def shift_grid_tie(geos, cmd):
+    """`ogridg`: the grid the call chooses (read off the map it returns unclipped) vs the model's `overlappingGrid` (identical
+    text) vs the independent evaluation above"""
+    cases = [Case(f"shiftgrid-{cmd}-{k}", ["new 2 0 0", g.line("ogridg " + cmd, "none")], oracle="shiftgrid", meta={"geo": g, "sig": "ogridg"})
+             for k, g in enumerate(geos)]
+
+    def orc(case, li):
+        g = case.meta["geo"]
+        ox, oy, nx, ny = g.fixed_grid
+        want = f"ok {gg.rs(ox)} {gg.rs(oy)} {nx} {ny}"
+        if len(li) < 2 or li[1] != want:
+            return f"grid: the call answered {li[1] if len(li) > 1 else None!r}, the shift loop evaluated independently gives {want!r} ({g.shifts} shifts)"
+        return None
+    r = hv.campaign(cases, orc)
+    hist = {}
+    for g in geos:
+        hist[g.shifts] = hist.get(g.shifts, 0) + 1
+    r.setdefault("notes", []).append(f"origin-shift loop ({cmd}): {len(geos)} polygons, number of shifts -> polygons: {dict(sorted(hist.items()))}")
+    return r
+
+
+def shift_cases(geos, cmd="grisubal", oracle_name="c16", obs=("wf", "snap")):
+    cases = []
+    for k, g in enumerate(geos):
+        for clip in ("none", "left", "right"):
+            cases.append(Case(f"{cmd}-shift-{k}-{clip}", [g.line(cmd, clip)] + list(obs), oracle=oracle_name,
+                              meta={"geo": g, "clip": clip, "expect": "mesh", "sig": f"shift-{clip}", "facts": dict(facts_of(g), shifts=g.shifts)}))
+    return cases
+
+
 # ---- steps 2 + 3 (hook grisubal::verif::intersection_darts): model `stepsTwoThree` vs implementation, + independent oracle ---
 
 def steps23_case(rng, k):
@@ -1342,6 +1455,11 @@ def run(tier, seed):
     parts.append(("step 1 (crossings per segment): model vs implementation, general polygons (tolerance 1e-9)", cross_tie(gen, False)))
     parts.append(("loops inside one grid cell", gg.impl_campaign(tiny_loop_cases(rng, 8 * mult), oracle)))
     parts.append(("directed: nested V dips through one cell side", gg.impl_campaign(chevron_cases(), oracle)))
+    shg = shift_geometries(rng, 40 * mult, False)
+    parts.append(("origin-shift loop of compute_overlapping_grid (vertices on corners of the first grid): grid of the returned map vs model "
+                  "`overlappingGrid` vs independent evaluation", shift_grid_tie(shg, "grisubal")))
+    parts.append(("origin-shift loop: grisubal on the shifted polygons that are in general position w.r.t. the FINAL grid (in scope, exact oracle)",
+                  gg.impl_campaign(shift_cases([g for g in shg if g.general_position()]), oracle)))
     parts.append(("steps 2 + 3 direct (hook intersection_darts): ids + map after insertion, model vs implementation, + hook-level oracle",
                   steps23_tie(rng, 800 * mult)))
     parts.append(("edges through grid corners (outside general position: steps 1-3, model vs implementation only)",
